@@ -265,8 +265,17 @@ def escape(ctx):
     aa = repo.func('xtuml.meta:MetaClass.append_attribute')
     r.check(pm.contains('_A = (name, type_name)', aa) and pm.contains('self.attributes.append(_A)', aa), 'attributes are stored as new immutable pairs', aa,
             construct='xtuml.meta:MetaClass.append_attribute', key='pair', msg='append_attribute does not append a new (name, type) tuple')
-    ui = repo.func('xtuml.meta:MetaModel.define_unique_identifier')
-    r.check(any(pm.match('_M.indices[name] = tuple(_X)', n) is not None and 'named_attributes' in src(n.value) for n in ast.walk(ui) if isinstance(n, ast.Assign)), 'identifier attribute lists are stored as tuples', ui,
+    ui = repo.nfunc('xtuml.meta:MetaModel.define_unique_identifier')
+    va_ = ui.args.vararg.arg if ui.args.vararg else None
+
+    def _tuple_of_names(v_):
+        v_ = resolve_locals(ui, v_, pure_only=False)
+        m_ = pm.match('tuple(_X)', v_)
+        if m_ is not None:
+            v_ = m_['_X']
+        # the variadic parameter is a tuple of its own for every call
+        return isinstance(v_, ast.Name) and v_.id == va_ and (m_ is not None or va_ is not None)
+    r.check(any(pm.match('_M.indices[_N] = _V', n) is not None and _tuple_of_names(n.value) for n in ast.walk(ui) if isinstance(n, ast.Assign)), 'identifier attribute lists are stored as tuples', ui,
             construct='xtuml.meta:MetaModel.define_unique_identifier', key='tuple', msg='define_unique_identifier does not store tuple(named_attributes)')
 
 
